@@ -10,5 +10,5 @@ grep -v "^Warning\|^WARNING" /tmp/try_patch.$$.log | grep -A3 "^---- violation" 
 tail -8 /tmp/try_patch.$$.log
 rm -f /tmp/try_patch.$$.log
 # replays written while the patch was applied are not kept
-git -C /verif status --short replays | awk '{print $2}' | grep -v fixed- | xargs -r rm -rf
+git -C /verif ls-files --others --exclude-standard replays | grep -v /fixed- | xargs -r rm -f
 echo "exit code: $rc"
